@@ -65,3 +65,142 @@ def byte_stream(max_chunks=30):
                     min_size=1, max_size=4)
     piece = st.one_of(enc, enc, cut, junk)
     return st.lists(piece, max_size=max_chunks).map(lambda ps: [b for p in ps for b in p])
+
+
+# ---- meta messages, tracks, files --------------------------------------------------------------------------------
+from . import refmeta as M  # noqa: E402
+
+DELTAS = [0, 0, 0, 1, 2, 10, 96, 127, 128, 129, 480, 16383, 16384, 2097151, 2097152, 268435455]
+
+
+def deltas(big=True):
+    if big:
+        return st.one_of(st.sampled_from(DELTAS), st.integers(0, 1000), st.integers(0, 0x0FFFFFFF))
+    return st.one_of(st.sampled_from([0, 0, 0, 1, 2, 3, 10, 96, 480]), st.integers(0, 2000))
+
+
+def latin1_text(max_size=40):
+    alpha = st.one_of(st.characters(min_codepoint=0x20, max_codepoint=0x7E),
+                      st.sampled_from(['\x00', '\x7f', '\x80', '\xff', '\xe9', "'", '"', '\\', '\n', ' ']),
+                      st.characters(min_codepoint=0, max_codepoint=255))
+    sizes = st.one_of(st.sampled_from([0, 1, 2]), st.integers(0, max_size))
+    return sizes.flatmap(lambda n: st.lists(alpha, min_size=n, max_size=n)).map(''.join)
+
+
+def _edge_int(lo, hi):
+    return st.one_of(st.sampled_from(sorted({lo, lo + 1, hi - 1, hi, (lo + hi) // 2})), st.integers(lo, hi))
+
+
+def meta_dict(time=None, text=None, max_hours=31, types=None, eot=False):
+    """A known meta message over its documented, round-trippable domain (as a dict)."""
+    time = time if time is not None else deltas()
+    text = text if text is not None else latin1_text()
+    types = list(types or [t for t in M.META if eot or t != 'end_of_track'])
+
+    def build(t):
+        f = {}
+        for name, _ in M.META[t][1]:
+            if (t, name) in M.INT_RANGES:
+                lo, hi = M.INT_RANGES[(t, name)]
+                if name == 'hours':
+                    hi = max_hours
+                f[name] = _edge_int(lo, hi)
+            elif t in M.TEXT_TYPES:
+                f[name] = text
+            elif name == 'denominator':
+                f[name] = st.one_of(st.sampled_from([0, 1, 2, 3, 7, 8, 29, 31, 254, 255]), st.integers(0, 255)).map(
+                    lambda k: 2 ** k)
+            elif name == 'key':
+                f[name] = st.sampled_from(sorted(M.KEYS))
+            elif name == 'frame_rate':
+                f[name] = st.sampled_from([24, 25, 29.97, 30])
+            elif name == 'data':
+                f[name] = st.lists(st.one_of(st.sampled_from([0, 1, 127, 128, 255]), st.integers(0, 255)), max_size=20)
+        return st.fixed_dictionaries({'type': st.just(t), **f, 'time': time})
+    return st.sampled_from(types).flatmap(build)
+
+
+UNKNOWN_TYPE_BYTES = [b for b in range(0x80) if b not in M.KNOWN_TYPE_BYTES]
+
+
+def unknown_meta_dict(time=None):
+    time = time if time is not None else deltas()
+    return st.fixed_dictionaries({
+        'type': st.just('unknown_meta'),
+        'type_byte': st.sampled_from(UNKNOWN_TYPE_BYTES),
+        'data': st.lists(st.one_of(st.sampled_from([0, 127, 128, 255]), st.integers(0, 255)), max_size=20),
+        'time': time})
+
+
+def file_event(time=None, max_sysex=20):
+    """One storable track event: channel / system common / sysex / known meta / unknown meta."""
+    time = time if time is not None else deltas()
+    return st.one_of(
+        msg_dict(types=list(R.CHANNEL_TYPES), time=time),
+        msg_dict(types=list(R.CHANNEL_TYPES), time=time),
+        msg_dict(types=['quarter_frame', 'songpos', 'song_select', 'tune_request'], time=time),
+        msg_dict(types=['sysex'], time=time, max_sysex=max_sysex),
+        meta_dict(time=time),
+        unknown_meta_dict(time=time),
+    )
+
+
+@st.composite
+def track_dicts(draw, max_events=12, time=None, eot='mixed', syscommon=True, max_sysex=20):
+    """A track as a list of message dicts, with running-status runs and breaks of such runs."""
+    time = time if time is not None else deltas()
+    out = []
+    n = draw(st.integers(0, max_events))
+    while len(out) < n:
+        kind = draw(st.sampled_from(['run', 'run', 'event', 'event', 'eot']))
+        if kind == 'run':
+            run_types = list(R.CHANNEL_TYPES) * 3
+            if syscommon:
+                # adjacent equal-status system common messages: running status must NOT be applied to them
+                run_types += ['quarter_frame', 'songpos', 'song_select', 'tune_request']
+            base = draw(msg_dict(types=run_types, time=time))
+            k = draw(st.integers(2, 4))
+            for i in range(k):
+                e = dict(base)
+                e['time'] = draw(time)
+                if draw(st.booleans()):
+                    # vary a data field but keep the status byte
+                    for name in R.attr_names(e['type']):
+                        if name != 'channel':
+                            e[name] = draw(attr_value(name))
+                            break
+                out.append(e)
+                if i + 1 < k and draw(st.integers(0, 4)) == 0:
+                    # break the run with something that must cancel running status
+                    br = draw(st.one_of(meta_dict(time=time), msg_dict(types=['sysex'], time=time, max_sysex=4),
+                                        unknown_meta_dict(time=time),
+                                        msg_dict(types=['song_select', 'tune_request', 'songpos', 'quarter_frame'],
+                                                 time=time) if syscommon else meta_dict(time=time)))
+                    out.append(br)
+        elif kind == 'event':
+            e = draw(file_event(time=time, max_sysex=max_sysex))
+            if not syscommon and e['type'] in ('quarter_frame', 'songpos', 'song_select', 'tune_request'):
+                continue
+            out.append(e)
+        elif eot == 'mixed' and draw(st.integers(0, 3)) == 0:
+            out.append({'type': 'end_of_track', 'time': draw(time)})
+    if eot == 'mixed':
+        tail = draw(st.sampled_from(['none', 'one', 'one', 'one-delta', 'two']))
+        if tail in ('one', 'two'):
+            out.append({'type': 'end_of_track', 'time': 0})
+        if tail == 'two':
+            out.append({'type': 'end_of_track', 'time': draw(time)})
+        if tail == 'one-delta':
+            out.append({'type': 'end_of_track', 'time': draw(time)})
+    elif eot == 'final':
+        out.append({'type': 'end_of_track', 'time': draw(time)})
+    return out
+
+
+@st.composite
+def file_dicts(draw, max_tracks=4, max_events=12, time=None, eot='mixed', syscommon=True):
+    ftype = draw(st.sampled_from([0, 1, 1, 2]))
+    nt = 1 if ftype == 0 else draw(st.integers(0, max_tracks))
+    tpb = draw(st.one_of(st.sampled_from([1, 2, 24, 96, 480, 960, 32767]), st.integers(1, 32767)))
+    tracks = [draw(track_dicts(max_events=max_events, time=time, eot=eot, syscommon=syscommon)) for _ in range(nt)]
+    return {'type': ftype, 'tpb': tpb, 'tracks': tracks}
